@@ -32,6 +32,9 @@ def sh(cmd: str, cwd: str | None = None, env: dict | None = None, timeout: int =
     return r.returncode, (r.stdout + r.stderr)
 
 
+_BASE: dict = {}
+
+
 def detect(patch: Path) -> dict[str, list[str]]:
     from sa.report import Result
     from sa.srcmodel import Program
@@ -44,13 +47,17 @@ def detect(patch: Path) -> dict[str, list[str]]:
         rc, o = sh(f"patch -p1 -s -f -i {patch}", cwd=str(tmp))
         if rc != 0:
             return {"<apply failed>": [o[:300]]}
-        base_prog = Program()
         mut_prog = Program(tmp)
         for f in sorted((VERIF / "checks").glob("C*.py")):
             prop = f.stem
             mod = importlib.import_module(f"checks.{prop}")
-            base = Result(prop, "quick")
-            mod.run(base_prog, base)
+            if prop not in _BASE:
+                if "prog" not in _BASE:
+                    _BASE["prog"] = Program()
+                b = Result(prop, "quick")
+                mod.run(_BASE["prog"], b)
+                _BASE[prop] = b
+            base = _BASE[prop]
             mut = Result(prop, "quick")
             try:
                 mod.run(mut_prog, mut)
